@@ -70,6 +70,8 @@ class SmallEval:
         self.local_fns = local_fns      # name -> syntactic fn node: private helpers that may be folded as well
         self.local_methods = {}         # name -> syntactic fn node with a `self` receiver (set by the rule)
         self._depth = 0
+        self.cov = set()                # (id(node), outcome): branches taken so far, over all folds of this evaluator
+        self.entered = {}               # id(fn node) -> fn node: every function whose body was evaluated
 
     # ---- entry ----
     def call(self, fn, args):
@@ -83,6 +85,7 @@ class SmallEval:
         if len(names) != len(args):
             raise NoEval("arity")
         env = Scope(None, dict(zip(names, args)))
+        self.entered[id(fn)] = fn
         try:
             return self.ev(fn["body"], env)
         except _Return as r:
@@ -243,18 +246,23 @@ class SmallEval:
                 v = self.ev(c["e"], env)
                 env2 = _child(env)
                 if self.bind(c["pat"], v, env2):
+                    self.cov.add((id(e), True))
                     return self.ev(e["then"], env2)
+                self.cov.add((id(e), False))
                 return self.ev(e["else"], env) if e.get("else") else ("unit",)
             if self._bool(self.ev(c, env)):
+                self.cov.add((id(e), True))
                 return self.ev(e["then"], env)
+            self.cov.add((id(e), False))
             return self.ev(e["else"], env) if e.get("else") else ("unit",)
         if k == "match":
             v = self.ev(e["e"], env)
-            for a in e["arms"]:
+            for ai, a in enumerate(e["arms"]):
                 env2 = _child(env)
                 if self.bind(a["pat"], v, env2):
                     if a.get("guard") is not None and not self._bool(self.ev(a["guard"], env2)):
                         continue
+                    self.cov.add((id(e), ai))
                     return self.ev(a["body"], env2)
             raise NoEval("no match arm applies")
         if k == "call" and (src(e["f"]).endswith("into_vec") or src(e["f"]).endswith("box_assume_init_into_vec_unsafe")):
@@ -285,6 +293,8 @@ class SmallEval:
                     return ("map", {})
                 if name.endswith("Vec::new") and not args:
                     return ("list", [])
+                if name.endswith("Vec::from") and len(args) == 1 and isinstance(args[0], tuple) and args[0] and args[0][0] == "list":
+                    return ("list", list(args[0][1]))
                 if name.endswith("Vec::with_capacity") and len(args) == 1:
                     return ("list", [])
                 if name in ("Box::from", "Box::new", "String::from") and len(args) == 1:
@@ -385,6 +395,42 @@ class SmallEval:
                 if m == "push" and len(args) == 1:
                     recv[1].append(self.ev(args[0], env))
                     return ("unit",)
+                if m == "append" and len(args) == 1:
+                    o = self.ev(args[0], env)
+                    if not (isinstance(o, tuple) and o and o[0] == "list"):
+                        raise NoEval("append of a non-collection")
+                    recv[1].extend(o[1])
+                    if o[1] is not recv[1]:
+                        del o[1][:]          # Vec::append empties its argument
+                    return ("unit",)
+                if m == "unzip" and not args:
+                    if not all(isinstance(x, tuple) and x and x[0] == "tuple" and len(x[1]) == 2 for x in recv[1]):
+                        raise NoEval("unzip of non-pairs")
+                    return ("tuple", [("list", [x[1][0] for x in recv[1]]), ("list", [x[1][1] for x in recv[1]])])
+                if m in ("flat_map", "filter_map") and len(args) == 1 and strip(args[0]).get("k") == "closure":
+                    cl = strip(args[0])
+                    out = []
+                    for x in recv[1]:
+                        env2 = _child(env)
+                        if len(cl["params"]) != 1 or not self.bind(cl["params"][0], x, env2):
+                            raise NoEval("closure parameter")
+                        r = self.ev(cl["body"], env2)
+                        if r is None:
+                            continue
+                        if isinstance(r, tuple) and r and r[0] == "Some":
+                            out.append(r[1])
+                        elif isinstance(r, tuple) and r and r[0] == "list":
+                            out.extend(r[1])
+                        else:
+                            raise NoEval("flat_map of something that is neither Option nor collection")
+                    return ("list", out)
+                if m == "enumerate" and not args:
+                    return ("list", [("tuple", [i_, x]) for i_, x in enumerate(recv[1])])
+                if m == "zip" and len(args) == 1:
+                    o = self.ev(args[0], env)
+                    if not (isinstance(o, tuple) and o and o[0] == "list"):
+                        raise NoEval("zip with a non-collection")
+                    return ("list", [("tuple", [a_, b_]) for a_, b_ in zip(recv[1], o[1])])
                 if m == "extend" and len(args) == 1:
                     o = self.ev(args[0], env)
                     if not (isinstance(o, tuple) and o and o[0] == "list"):
@@ -486,6 +532,28 @@ class SmallEval:
             return self.ev(e["e"], env)
         raise NoEval(f"expression kind {k}: `{src(e)[:50]}`")
 
+    # ---- coverage of the case table ----
+    def uncovered(self, only=None):
+        """branches of the functions that were folded which no case of the table took: ["fn: what"].  A fold states what a function does
+        on a table of cases; the statement is only as good as the table, so a branch that no case reaches (e.g. one added later) is
+        reported instead of being silently left out."""
+        from .common import walk as _walk
+        out = []
+        for fn in self.entered.values():
+            if only is not None and fn.get("name") not in only:
+                continue
+            for n in _walk(fn["body"]):
+                k = n.get("k")
+                if k == "if":
+                    for oc, what in ((True, "taken"), (False, "not taken")):
+                        if (id(n), oc) not in self.cov:
+                            out.append(f"{fn['name']}: `if {src(n['c'], -30)[:50]}` never {what}")
+                elif k == "match":
+                    for ai, a in enumerate(n["arms"]):
+                        if (id(n), ai) not in self.cov:
+                            out.append(f"{fn['name']}: arm `{src(a['pat'], -30)[:50]}` of `match {src(n['e'], -30)[:30]}` never taken")
+        return out
+
     # ---- patterns ----
     def bind(self, p, v, env):
         k = p.get("k")
@@ -521,7 +589,7 @@ class SmallEval:
                 fields = v[2] if len(v) > 2 else {}
             elif isinstance(v, dict) and v.get("__struct__") == want.split("::")[-1]:
                 fields = v
-            elif isinstance(v, dict) or (isinstance(v, tuple) and v and v[0] in ("Some", "tuple", "list")) or v is None:
+            elif isinstance(v, dict) or (isinstance(v, tuple) and v and v[0] in ("Some", "tuple", "list", "sym", "map")) or v is None:
                 return False
             else:
                 raise NoEval(f"pattern `{src(p)[:40]}` against `{str(v)[:30]}`")
